@@ -149,6 +149,9 @@ func (f *Font) MakeGlyphNames() []string {
 						nn = append(nn[:0], name)
 					replLoop:
 						for _, lig := range subtable.Repl[idx] {
+							if glyphNames[lig.Out] != "" {
+								continue
+							}
 							nn = nn[:1]
 							for _, gid := range lig.In {
 								if name := glyphNames[gid]; name != "" {
